@@ -622,3 +622,64 @@ def check_bad_writes(ctx):
     if fails:
         out[-1]["ok"] = True
     return out
+
+
+def check_glue(ctx):
+    """Run-time audit of the ASSUMED contracts of in-repo glue code (the
+    functions whose bodies are outside the verified subset): what the sidecar
+    contract says about them is checked on concrete calls."""
+    import random as _r
+    from sedpack.io.metadata import DatasetStructure, Attribute
+    from sedpack.io.shard.get_shard_writer import get_shard_writer
+    from sedpack.io.utils import func_or_identity, identity
+    from sedpack.io.itertools.lazy_pool import Collector
+    import queue
+    problems = []
+    n = 0
+    with C.tmpdir() as tmp:
+        for fmt, comp in (("fb", ""), ("fb", "LZ4"), ("npz", ""), ("npz", "ZIP"),
+                          ("tfrec", ""), ("tfrec", "GZIP")):
+            n += 1
+            ds = DatasetStructure(
+                saved_data_description=[Attribute(name="id", dtype="int64",
+                                                  shape=())],
+                compression=comp, shard_file_type=fmt)
+            p = tmp / f"d_{fmt}_{comp}" / "sub" / f"x.{fmt}"
+            w = get_shard_writer(dataset_structure=ds, shard_file=p)
+            # contract: fresh writer for exactly this path, no record yet,
+            # not closed, no file touched (the directory may be created)
+            if getattr(w, "_shard_file", None) != p:
+                problems.append(f"{fmt}: writer path {getattr(w, '_shard_file', None)} != {p}")
+            if p.exists():
+                problems.append(f"{fmt}: file exists right after construction")
+            held = (getattr(w, "_examples", None) or getattr(w, "_buffer", None)
+                    or getattr(w, "_tf_shard_writer", None))
+            if held:
+                problems.append(f"{fmt}: a new writer already holds records")
+            if type(w).__name__ != {"fb": "ShardWriterFlatBuffer",
+                                    "npz": "ShardWriterNP",
+                                    "tfrec": "ShardWriterTFRec"}[fmt]:
+                problems.append(f"{fmt}: wrong writer class {type(w).__name__}")
+    # func_or_identity: returns f, or the identity
+    n += 3
+    f = lambda x: x + 1  # noqa: E731
+    if func_or_identity(f) is not f:
+        problems.append("func_or_identity(f) is not f")
+    g = func_or_identity(None)
+    if any(g(x) != x for x in (0, "a", (1, 2), None)):
+        problems.append("func_or_identity(None) is not the identity")
+    if identity(5) != 5:
+        problems.append("identity")
+    # Collector.__init__ stores its arguments and does not start the thread
+    n += 1
+    tq, rq = queue.Queue(), queue.Queue()
+    c = Collector(func=f, to_process=tq, results=rq)
+    if c._to_process is not tq or c._results is not rq or c.func is not f \
+            or c.is_alive():
+        problems.append("Collector.__init__ contract")
+    return [C.result(
+        "assumed contracts of in-repo glue (get_shard_writer + writer "
+        "constructors, func_or_identity, Collector.__init__) hold on concrete "
+        "calls", not problems, function="get_shard_writer", evaluations=n,
+        witness=problems[:5] or None,
+        bound="6 format x compression cells; 4 identity probes")]
